@@ -19,6 +19,9 @@ def run(ctx):
     gh = ctx.tlc("MC_Iface", "Gen_Iface.cfg", workers=1, timeout=1500, constants={"MaxOps": 5 if q else 6, "Ops": "<- HeldOps", "V": '{"i1"}', "M": "<- M1h", "Kinds": '{"stub"}' if q else '{"stub", "apply"}', "Args": "{7}"},
                  tag="all histories with kept handles to depth %d (one variable, two of its methods)" % (5 if q else 6))
     behs += ctx.behaviours(gh)
+    gl = ctx.tlc("MC_Iface", "Gen_Iface.cfg", workers=1, timeout=1500, constants={"MaxOps": 3 if q else 4, "V": '{"l1", "l2"}', "M": "<- ML", "Kinds": '{"stub"}', "Args": "{7}"},
+                 tag="all histories over two same-named function-local interface types")
+    behs += ctx.behaviours(gl)
     s = ctx.tlc("MC_Iface", "Sim_Iface.cfg", workers=1, timeout=1500, simulate="num=%d" % (400 if q else 6000), depth=14,
                 tag="random histories: 3 variables (2 types), 2 builders, Drop/GC at TLC-chosen points")
     behs += ctx.behaviours(s)
